@@ -155,6 +155,37 @@ def run(ctx):
     pid = tables.char_pred(f, L["fn"]["is_identifier"])
     ctx.ob("T-PEG", "identifier chars cover LETTER|NUMBER|\"_\"|\"-\"", all(x in ac for x in ("LETTER", "NUMBER", '"_"', '"-"')) and
            all(tables.pred_accepts(pid, c) for c in "aZ9_-é漢"), "%s" % sorted(pid))
+    # ---- T-PEG-LOOKAHEAD: where does a name end?
+    ctx.rule("T-PEG-LOOKAHEAD", "sibling agreement on where an atom name ends: the grammar's atom_content = atom_char ~ (!copula ~ atom_char)* stops "
+             "before anything its GENERIC copula patterns match, the library's name scanners stop before one of the 13 CONCRETE copulas; "
+             "every string of atom characters that a grammar copula alternative matches must also be a library copula, else the formatter "
+             "prints a name the grammar cuts in two")
+    acont = re.sub(r"\s+", "", peg.get("atom_content", ""))
+    ctx.ob("T-PEG-LOOKAHEAD", "atom_content = atom_char ~ (!copula ~ atom_char)*", acont == "atom_char~(!copula~atom_char)*", acont)
+    achar_lits = [x for x in lits(ac) if len(x) == 1]
+    classes = re.findall(r"\b[A-Z_]{3,}\b", ac)
+    ctx.ob("T-PEG-LOOKAHEAD", "atom_char = LETTER | NUMBER | literal chars", sorted(classes) == ["LETTER", "NUMBER"] and len(achar_lits) >= 1, "%s %s" % (classes, achar_lits))
+    # chars that are atom_char AND punct_sym: LETTER / NUMBER (general categories L*, N*) are disjoint from PUNCTUATION / SYMBOL (P*, S*)
+    both = sorted(c for c in achar_lits if punct_sym(c))
+
+    def is_atom_char(c):
+        return c in achar_lits or unicodedata.category(c)[0] in ("L", "N")
+    import itertools
+    inner = []
+    for alt in calts:
+        if not all(a is None or is_atom_char(a) for a in alt):
+            continue
+        slots = [both if a is None else [a] for a in alt]
+        for combo in itertools.product(*slots):
+            inner.append("".join(combo))
+    lib = set(L["copula"]) | set(ER["copula"].values())
+    ctx.sample({"rule": "T-PEG-LOOKAHEAD", "atom_chars_that_are_punct_sym": both, "grammar_copula_matches_inside_names": sorted(set(inner))})
+    for g in sorted(set(inner)):
+        ctx.ob("T-PEG-LOOKAHEAD", "name-internal %r: copula for the grammar's look-ahead, and for the library" % g, g in lib,
+               "the ASCII formatters print a name such as a%sb verbatim and the library reads it back whole, but the grammar's atom_content stops "
+               "before %r and rejects the rest" % (g, g))
+    if not inner:
+        ctx.ob("T-PEG-LOOKAHEAD", "no grammar copula alternative matches inside a name", True)
     # ---- T-REF
     ctx.rule("T-REF", "both ASCII tables equal the frozen OpenNARS-compatible reference lexicon (this is what notices formatter and parser "
              "drifting together)")
